@@ -185,11 +185,14 @@ namespace sim
 			, out_request.data(), out_request.size());
 		m_num_server_out_bytes += int(out_request.size());
 
+		// a lookup or connect for an earlier (pipelined) request is already
+		// under way. This request is queued and sent once we're connected
+		// (writing to the socket before that fails and closes the client
+		// connection without the 503 it is owed)
+		if (m_connecting) return;
+
 		if (!m_server_connection.is_open())
 		{
-			// a lookup or connect for an earlier (pipelined) request is already
-			// under way. This request is queued and sent once we're connected
-			if (m_connecting) return;
 			m_connecting = true;
 
 			boost::system::error_code err;
